@@ -130,6 +130,28 @@ Base(sc, t) ==
 \* a non-null value
 Some(sc, t) == LET u == Unalias(sc, t) IN IF u.k = "nullable" THEN Base(sc, u.e) ELSE Base(sc, t)
 
+\* a value with everything set, to depth k: every field of every struct on the way,
+\* the LAST declared tag of a union (where evolution appends), one list item, one map entry
+RECURSIVE Full(_, _, _)
+Full(sc, t, k) ==
+    IF k = 0 THEN Some(sc, t) ELSE
+    CASE t.k = "nullable" -> Full(sc, t.e, k)
+      [] t.k = "list"   -> VList(Rep(IF MinLen(t) > 1 THEN MinLen(t) ELSE 1, Full(sc, t.e, k)))
+      [] t.k = "map"    -> VMap("k1" :> Full(sc, t.v, k))
+      [] t.k = "ref"    ->
+           LET d == sc[t.n] IN
+           (CASE d.k = "alias"  -> Full(sc, d.t, k)
+             [] d.k = "struct" ->
+                  LET c  == IF d.subs = <<>> THEN t.n ELSE d.subs[Len(d.subs)].sub
+                      fs == Visible(AllFields(sc, c), {})
+                      m  == [n \in SeqNames(fs) |-> Full(sc, FieldByName(fs, n).t, k - 1)]
+                  IN  VStruct(c, [n \in {x \in SeqNames(fs) : m[x].k # "none"} |-> m[n]])
+             [] d.k = "union"  ->
+                  LET tgs == Visible(AllTagsDeclared(sc, t.n), {})
+                      tg  == tgs[Len(tgs)]
+                  IN  VUnion(t.n, tg.n, IF Unalias(sc, tg.t).k = "void" THEN VNone ELSE Full(sc, tg.t, k - 1)))
+      [] OTHER -> Base(sc, t)
+
 RECURSIVE Vals(_, _, _, _)
 StructVals(sc, c, d, perms) ==
     LET fs   == Visible(AllFields(sc, c), perms)
@@ -144,7 +166,7 @@ StructVals(sc, c, d, perms) ==
         all  == [n \in SeqNames(fs) |-> Some(sc, FieldByName(fs, n).t)]
     IN  {VStruct(c, f) : f \in ({base, all} \cup one \cup dfl)}
 Vals(sc, t, d, perms) ==
-    IF d = 0 THEN {Base(sc, t)} ELSE
+    IF d = 0 THEN {Base(sc, t), Full(sc, t, 2)} ELSE
     CASE t.k = "int"    -> {VInt(r) : r \in {x \in {ILo(t), IHi(t), IZero} : ILo(t) <= x /\ x <= IHi(t)}}
       [] t.k = "float"  -> {VFloat(r) : r \in {x \in {FLo(t), FHi(t), FHalf} : FLo(t) <= x /\ x <= FHi(t)}}
       [] t.k = "str"    -> {CStr(IF t.pat # "" /\ MinLen(t) = 0 THEN 1 ELSE MinLen(t), TRUE, 0),
@@ -319,7 +341,10 @@ DecUnionObj(sc, n, m, strict, perms, devs) ==
          IF mt.k = "void" THEN
               IF strict
               THEN IF extra # {} THEN Err
-                   ELSE IF tn \in DOMAIN m THEN Unspec   \* {".tag": t, t: ...} for a void tag
+                   ELSE IF tn \in DOMAIN m
+                        THEN (IF m[tn].k = "jnull" THEN Unspec   \* {".tag": t, t: null}: not described
+                              ELSE Err)                          \* evolve_spec: a Void tag has no value
+                   
                    ELSE Ok(VUnion(n, tn, VNone))
               ELSE Ok(VUnion(n, tn, VNone))              \* payload ignored (evolve_spec)
          ELSE IF IsPlainStruct(sc, ut) THEN
